@@ -2,9 +2,9 @@
 (* Workload for C05: signing, boundary keys x boundary digests and PRNG pairs. *)
 EXTENDS GenKeys
 O1 == 0 + (NSignFixed+NSignRand)
-Count == O1 + NBulk
+Count == O1 + NBulk + NTwinHist
 ItemAt(g) ==
-  IF g <= O1 THEN SignAt(g - 0) ELSE BulkAt(g - O1)
+  IF g <= O1 THEN SignAt(g - 0) ELSE IF g <= O1 + NBulk THEN BulkAt(g - O1) ELSE TwinKeyAt(2 * (g - O1 - NBulk) - 1)
 Histories == IF "VERIF_TIER" \in DOMAIN IOEnv /\ IOEnv.VERIF_TIER = "thorough" THEN 300 ELSE 40
 VARIABLE n
 INSTANCE GenBase
